@@ -79,6 +79,11 @@ AllClosedAtEnd == done => (m.stack = <<>> /\ Len(m.spans) = m.n)
 \* unclosed tags run to the end: the last character carries every tag still open
 RunsToEnd == (~done /\ m.out # <<>> /\ hist # <<>> /\ hist[Len(hist)].k = "text") => m.out[Len(m.out)].open = m.stack
 
+\* a base style behaves like a tag opened before everything else and never closed
+BaseIsEarliest == \A b \in BaseIds \ {0} :
+    Combine(BaseSty(b), Eff(m.stack)) =
+        EffDecl(<< [seq |-> 0, sty |-> BaseSty(b)] >> \o [x \in 1..Len(m.stack) |-> [seq |-> m.stack[x].seq, sty |-> m.stack[x].sty]])
+
 Prefixes == { <<>>, <<LB, 98, RB>>, <<LB, 98, RB, X, LB, SLASH, 98, RB>>, <<X>>, <<X, BS, BS, LB, 98, RB>> }
 Suffixes == { <<>>, <<LB, SLASH, RB>>, <<LB, 98, RB, X>>, <<RB>>, <<X, LB, SLASH, 98, RB>>, <<BS, LB, 98, RB>> }
 EscStandalone == mode = "str" => EscStandaloneLex(str)
